@@ -136,11 +136,50 @@ and model_selector (o : tok) : string =
   | RUnsup -> raise (Outcome "UNSUP")
   | RFuel -> raise (Outcome "FUEL")
 
+(* ---- go-style for (Model/PrattFor.v); printing = the documented lowered forms ---- *)
+let repr_of (t : tok) : string = match t with TPair z | THash z -> Hashtbl.find reprs (int_of_z z) | _ -> ""
+let starts_with (p : string) (s : string) = String.length s >= String.length p && String.sub s 0 (String.length p) = p
+let is_body (t : tok) : bool =
+  match t with TPair _ -> starts_with "(infix" (repr_of t) | THash _ -> repr_of t = "{}" | _ -> false
+let body_empty (t : tok) : bool =
+  match t with TPair _ -> repr_of t = "(infix)" | THash _ -> true | _ -> false
+
+let print_for (eof : tok option) (f : forform) : string =
+  (* a clause is parsed by its own Pratt over the clause's tokens: the stale token at EOF is the
+     clause's last token = the last token of the yield (the clause is consumed completely) *)
+  let pmc x = pm (last_opt (yield x)) x in
+  let opt d = function Some x -> pmc x | None -> d in
+  let lab = function Some l -> " " ^ print_tok l | None -> "" in
+  let bod = function Some b -> [print_tok b] | None -> [] in
+  match f with
+  | FThree (l, i, t, p, b) ->
+    "(for" ^ lab l ^ " [" ^ opt "nil" i ^ " " ^ opt "true" t ^ " " ^ opt "nil" p ^ "]"
+    ^ String.concat "" (List.map (fun x -> " " ^ x) (bod b)) ^ ")"
+  | FRange (l, targets, define, src, b) ->
+    let s = "__range_src" and n = "__range_len" and i = "__range_i" and pr = "__range_pair" in
+    let tg = List.map print_tok targets in
+    let body = bod b in
+    let items =
+      (match tg with
+       | [t0] -> [Printf.sprintf "(%s %s (__rangeKey %s %s))" (if define then "def" else "set") t0 s i] @ body
+       | [t0; t1] ->
+         if define then [Printf.sprintf "(mdef %s %s (__rangePair %s %s))" t0 t1 s i] @ body
+         else [Printf.sprintf "(let [%s (__rangePair %s %s)] (begin (set %s (first %s)) (set %s (second %s))%s))"
+                 pr s i t0 pr t1 pr (String.concat "" (List.map (fun x -> " " ^ x) body))]
+       | _ -> ["?"]) in
+    Printf.sprintf "(letseq [%s %s %s (__rangeLen %s)] (for%s [(def %s 0) (< %s %s) (set %s (+ %s 1))] %s))"
+      s (pmc src) n s (lab l) i i n i i (String.concat " " items)
+
+let for_obs (ts : tok list) : string =
+  match parse_block_for !cur_ents kk for_consts led_err is_body body_empty ts with
+  | ROk xs -> String.concat " ;; " (List.map (function SExpr x -> pm (last_opt ts) x | SFor f -> print_for (last_opt ts) f) xs)
+  | RErr -> "ERR" | RCrash -> "PANIC" | RUnsup -> "UNSUP" | RFuel -> "FUEL"
+
 let model_obs (ts : tok list) : string =
   try
     match m_parse_block !cur_ents kk led_err ts with
     | ROk xs -> String.concat " ;; " (List.map (pm (last_opt ts)) xs)
-    | RErr -> "ERR" | RCrash -> "PANIC" | RUnsup -> "UNSUP" | RFuel -> "FUEL"
+    | RErr -> "ERR" | RCrash -> "PANIC" | RUnsup -> for_obs ts | RFuel -> "FUEL"
   with Outcome s -> s
 
 (* ---- specification side ---- *)
